@@ -320,7 +320,10 @@ Qed.
 
 Lemma rem_le th : rem th <= 180.
 Proof.
-  unfold rem. destruct (c_prog (cfg th)); destruct (tpc th) as [[]| | | | | |[]|[]| | | | | |[]|[]| | | |[] []|[]|[]| | | | | | | |]; simpl; lia.
+  unfold rem. assert (R : rank (tpc th) <= 120).
+  { destruct (tpc th); cbn [rank];
+      repeat match goal with |- context [match ?x with _ => _ end] => destruct x end; lia. }
+  destruct (c_prog (cfg th)); try destruct (is_mpc (tpc th)); lia.
 Qed.
 
 Lemma total_rem_le s : total_rem s <= 180 * length (thr s).
